@@ -12,6 +12,7 @@ import DSV.Model.GcRun
 import DSV.Model.GcRace
 import DSV.Model.Reader
 import DSV.Model.CommitFault
+import DSV.Model.Fs
 /-!
 Line-protocol driver: one request per line on stdin, one reply per line on stdout.
 First token selects the model function.  Imports only `DSV.Model.*` (core Lean), so it links natively.
@@ -810,6 +811,53 @@ def handleCf (args : List String) : String :=
       | _, _, _, _ => "bad-op"
   | _ => "bad-op"
 
+/-! #### durability judge -/
+open DSV.Fs in
+def parseFsEv (t : String) : Option Ev :=
+  match t.splitOn ":" with
+  | ["c", p, d] => match p.toNat?, d.toNat? with
+      | some a, some b => some (.creat a b)
+      | _, _ => none
+  | ["w", p] => p.toNat?.map .write
+  | ["s", p] => p.toNat?.map .fsync
+  | ["r", a, b] => match a.toNat?, b.toNat? with
+      | some x, some y => some (.rename x y)
+      | _, _ => none
+  | ["sd", d] => d.toNat?.map .fsyncDir
+  | ["u", p] => p.toNat?.map .unlink
+  | _ => none
+
+open DSV.Fs in
+def handleFsJudge (args : List String) : String :=
+  -- fs.judge hint=9 reach=1,2 pre=3/1,4/0 (path/dir pairs that are durable before the operation) | events
+  let (hdr, rest) := args.span (· ≠ "|")
+  let evs := rest.drop 1
+  let kv := hdr.filterMap parseKv
+  let get (k : String) : String := (kv.find? (·.1 == k)).map (·.2) |>.getD ""
+  let reach : List Nat := if get "reach" = "-" then [] else ((get "reach").splitOn ",").filterMap String.toNat?
+  let pre : List (Nat × Nat) := if get "pre" = "-" then [] else ((get "pre").splitOn ",").filterMap fun t =>
+    match t.splitOn "/" with
+    | [p, d] => match p.toNat?, d.toNat? with
+        | some a, some b => some (a, b)
+        | _, _ => none
+    | _ => none
+  let dirs : List (Nat × Nat) := if get "dirs" = "-" then [] else ((get "dirs").splitOn ",").filterMap fun t =>
+    match t.splitOn "/" with
+    | [p, d] => match p.toNat?, d.toNat? with
+        | some a, some b => some (a, b)
+        | _, _ => none
+    | _ => none
+  let s0 : St := fun p =>
+    match pre.find? (·.1 == p) with
+    | some (_, d) => ⟨true, true, true, true, d⟩
+    | none => absent ((dirs.find? (·.1 == p)).map (·.2) |>.getD 0)
+  match (get "hint").toNat?, evs.mapM parseFsEv with
+  | some h, some es =>
+      match judge h reach s0 es with
+      | none => "durable"
+      | some i => s!"violation at event {i}"
+  | _, _ => "bad-op"
+
 def handle (line : String) : String :=
   match splitWs line with
   | [] => "bad-op"
@@ -823,6 +871,7 @@ def handle (line : String) : String :=
     else if cmd = "gcrace.trace" then handleRace args
     else if cmd = "rd.get" then handleRd args
     else if cmd = "cf.outcome" then handleCf args
+    else if cmd = "fs.judge" then handleFsJudge args
     else if cmd.startsWith "gc." then handleGc cmd args
     else if cmd = "occ.trace" then handleOcc args
     else if cmd = "create.trace" then handleCreate args
